@@ -79,6 +79,10 @@ var rtVersions = []string{
 	// 21, 22: one exported name under two store names (a hyphen is exported as an underscore)
 	"counter lat as \"lat-ms\" by k\ncounter lseen\n/^(\\w+)$/ {\n  lat[$1]++\n}\nlseen++\n",
 	"counter lat_ms by k\ncounter lseen\n/^(\\w+)$/ {\n  lat_ms[$1]++\n}\nlseen++\n",
+	// 23, 24: a metric with a limit (only a GC pass enforces it: between passes it may hold more), and
+	// the same with a comment-only edit
+	"counter c by k limit 1\ncounter lseen\n/^(\\w+)$/ {\n  c[$1]++\n}\nlseen++\n",
+	"counter c by k limit 1\ncounter lseen\n/^(\\w+)$/ {\n  c[$1]++\n}\nlseen++\n# edited\n",
 }
 
 type rtDecl struct {
